@@ -475,3 +475,7 @@ def run(ctx):
              "lists where only a later thread defines mark types)")
     from rules import round6
     round6.check_mark_create_scans_all(ctx, "R17.8")
+    ctx.rule("R17.9", "every mark type that can be defined can be used: the types ovni_mark_type accepts are accepted "
+             "by ovni_mark_push / pop / set")
+    from rules import round6
+    round6.check_mark_type_range_agrees(ctx, "R17.9")
